@@ -7,8 +7,8 @@
      reference is bound to does not depend on the mode, both tools accept the program, and the order in which the
      modules reach the IR linker is irrelevant.  Both hypotheses are needed (refutations).
    * the compiler's own -O 2 transformation (parameter-copy elision) is C08's model Lower/Opt2.v: `run_copy` is what
-     -O 0 and -O 1 emit, `run_elide` what -O 2 emits; their equality is refuted on the pinned tree and proved under
-     the decidable side condition `elide_safe` (no aliasing between an elided argument and what the callee may write).
+     -O 0 and -O 1 emit, `run_elide` what -O 2 emits (with the repair 91b5d4a); their equality is proved under the
+     decidable side condition `elide_safe`; the former refutation witnesses now agree in both modes.
    NOT modelled (differentially tested by checks/c11.py): LLVM's pass pipeline, IR linker and code generator, gcc/ld.
    Only statements + `exact` of lemmas proved in Lower/Opt2LinkProofs.v / Lower/Opt2Witness.v. *)
 From Coq Require Import List NArith Bool Permutation.
@@ -89,14 +89,19 @@ Proof. exact link_mode_relevant_without_same_lists. Qed.
 Print Assumptions C11_link_mode_relevant_without_same_lists.
 
 (* the optimisation level: run_copy is what -O 0 / -O 1 emit (every value parameter is a fresh copy), run_elide what
-   -O 2 emits (copies of parameters the analysis judges constant are elided, compiler.go:2059-2067, 435-448).
-   "-O 2 behaves like -O 0/-O 1" is FALSE on the pinned tree (witnesses in Lower/Opt2Witness.v; checks/c11.py
-   rediscovers them as the known finding). *)
-Theorem C11_O2_elision_refuted : exists fuel p, run_elide fuel p <> run_copy fuel p.
-Proof. exact elision_sound_refuted. Qed.
-Print Assumptions C11_O2_elision_refuted.
+   -O 2 emits (copies of parameters the analysis judges constant are elided when the argument is a local variable
+   nothing else can reach during the call, compiler.go VisitFuncCall/mayElideArgCopy, exitFuncScope).
+   "-O 2 behaves like -O 0/-O 1" was FALSE on the pinned tree (checks/c11.py rediscovered the C08 witnesses);
+   after the repair 91b5d4a the former witnesses agree in both modes ... *)
+Theorem C11_O2_former_witnesses_agree :
+  run_elide 50 w_same_var = run_copy 50 w_same_var /\
+  run_elide 50 w_same_var_inplace = run_copy 50 w_same_var_inplace /\
+  run_elide 50 w_global = run_copy 50 w_global /\
+  run_elide 50 w_recursion = run_copy 50 w_recursion.
+Proof. exact former_witnesses_agree. Qed.
+Print Assumptions C11_O2_former_witnesses_agree.
 
-(* ... and TRUE for every program that satisfies the decidable side condition `elide_safe` of Lower/Opt2Safe.v
+(* ... and the two modes agree for every program that satisfies the decidable side condition `elide_safe` of Lower/Opt2Safe.v
    (consistent analysis table; no elided argument can be the storage of a Referenz argument of the same call that
    the callee may write, nor a global the callee or its callees may write): for those the compiler's own -O 2
    transformation preserves the behaviour of -O 0 / -O 1 for every fuel. *)
